@@ -5,7 +5,7 @@ Driver for C05. Case line (strings hex-encoded, lists as `n item…`):
 
   <id> J <json> R <n> { <path> <resolves> <n> <tag>… <num> <cresolves> <cpanics> <n> <ctag>… }*
        O <mode 0=partial 1=full> <maxErrors> <maxFields> <n> <redacted path>… <singleRule>
-       F <n> { <path> <tag> }*
+       F <n> { <json path> <path as shipped> <tag> }*
     => PM <n> <path>… LV <n> <path>… V ( N | P | E <truncated> <n> { <path> <code> <hidden> }* )
        K <leak> D <deterministic>
 
@@ -44,6 +44,8 @@ structure Case where
   opts : Opts
   single : Bool
   fullErrs : List (Path × Bytes)
+  /-- the same errors with the path as `namespaceToJSONPath` computed it before the repair of K05e -/
+  fullErrsAsIs : List (Path × Bytes)
 
 def pCase : P Case := do
   lit "J"
@@ -60,9 +62,10 @@ def pCase : P Case := do
   let red ← list str
   let single ← bool
   lit "F"
-  let fe ← list (do let p ← str; let t ← str; pure (p, t))
+  let fe ← list (do let p ← str; let ap ← str; let t ← str; pure (p, ap, t))
   pure { top := top, rules := rules, full := mode == 1,
-         opts := { maxErrors := me, maxFields := mf, redacted := red }, single := single, fullErrs := fe }
+         opts := { maxErrors := me, maxFields := mf, redacted := red }, single := single,
+         fullErrs := fe.map fun (p, _, t) => (p, t), fullErrsAsIs := fe.map fun (_, ap, t) => (ap, t) }
 
 /-- what `Validate`/`ValidatePartial` did: panic, nil, or a `*validation.Error` -/
 inductive VObs where
@@ -117,7 +120,7 @@ def encV : VObs → String
 def modelPresence (c : Case) : List Path := presence c.top
 def modelLeaves (pm : List Path) : List Path := leafPaths pm
 def modelValidate (c : Case) (pm : List Path) : VObs :=
-  if c.full then .res (validateFull c.fullErrs c.opts)
+  if c.full then .res (validateFull c.fullErrsAsIs c.opts)
   else .res (validatePartial pm c.rules c.opts)
 
 /-- errors that ought to be reported, evaluated on the presence set the implementation reported -/
